@@ -169,9 +169,9 @@ theorem filter_not_not (fs : List FieldSpec) :
     fs.filter (fun x => !(fun f : FieldSpec => !f.2.2) x) = fs.filter (fun f => f.2.2) := by
   congr 1; funext x; simp
 
-/-- **C01 on the flat one-hop family.** See `Props/C01.lean` (`C01_flat_one_hop`) for the statement
-    in words. -/
-theorem flat_one_hop {c : PCtx} {A B T q : String} {fs : List FieldSpec} (h : Fam c A B T q fs)
+/-- **C01 on the flat one-hop family**, with the calls spelled out (`callsOf`). See
+    `Props/C01Flat.lean` (`C01_flat_one_hop`) for the statement in words. -/
+theorem flat_one_hop_calls {c : PCtx} {A B T q : String} {fs : List FieldSpec} (h : Fam c A B T q fs)
     (svcs : List Svc) (SA SB : Schema) (D : Data) (e : Entity) (r : List (String × J))
     (hq1 : '#' ∉ q.toList) (hq2 : ':' ∉ q.toList) (hqne : q ≠ "") (hine : e.id ≠ "")
     (hnne : ∀ n ∈ namesOf fs, n ≠ "")
@@ -179,8 +179,8 @@ theorem flat_one_hop {c : PCtx} {A B T q : String} {fs : List FieldSpec} (h : Fa
     (hSB : ∃ td, SB.type? T = some td ∧ td.kind = .object)
     (hroot : dlookup q (D.root "Query") = some (.ref e.id)) (hent : D.entity? e.id = some e) (hty : e.type = T)
     (href : Spec.eval c.schema D ⟨.query, "", [], [Q T q fs]⟩ [] = some (.obj [(q, .obj r)])) :
-    ∃ d calls, gateway c {} ⟨.query, "", [], [Q T q fs]⟩ none (specDownstream svcs D)
-        = .ok ⟨some [(q, .obj d)], [], calls⟩ ∧ d.Perm r := by
+    ∃ d, gateway c {} ⟨.query, "", [], [Q T q fs]⟩ none (specDownstream svcs D)
+        = .ok ⟨some [(q, .obj d)], [], callsOf c A B T q fs e.id⟩ ∧ d.Perm r := by
   have hqne' : q.toList ≠ [] := by
     intro hnil; apply hqne; rw [← String.ofList_toList (s := q), hnil]
   -- the reference answer, field by field
@@ -292,7 +292,21 @@ theorem flat_one_hop {c : PCtx} {A B T q : String} {fs : List FieldSpec} (h : Fa
     rw [hnil, mapM_length _ fs r hrefM] at hlen
     have : fs = [] := by cases hfs : fs with | nil => rfl | cons _ _ => rw [hfs] at hlen; simp at hlen
     exact h.hne this
-  obtain ⟨calls, hg⟩ := stage_gateway h (specDownstream svcs D) e.id ra rb hq1 hq2 hqne' hine hA hB hb0 hbnd hdisj hid htn hne
-  exact ⟨ra ++ rb, calls, hg, hperm⟩
+  have hg := stage_gateway_calls h (specDownstream svcs D) e.id ra rb hq1 hq2 hqne' hine hA hB hb0 hbnd hdisj hid htn hne
+  exact ⟨ra ++ rb, hg, hperm⟩
+
+/-- **C01 on the flat one-hop family** (the calls left unnamed). -/
+theorem flat_one_hop {c : PCtx} {A B T q : String} {fs : List FieldSpec} (h : Fam c A B T q fs)
+    (svcs : List Svc) (SA SB : Schema) (D : Data) (e : Entity) (r : List (String × J))
+    (hq1 : '#' ∉ q.toList) (hq2 : ':' ∉ q.toList) (hqne : q ≠ "") (hine : e.id ≠ "")
+    (hnne : ∀ n ∈ namesOf fs, n ≠ "")
+    (hsA : svcs.find? (·.url == A) = some ⟨A, SA⟩) (hsB : svcs.find? (·.url == B) = some ⟨B, SB⟩)
+    (hSB : ∃ td, SB.type? T = some td ∧ td.kind = .object)
+    (hroot : dlookup q (D.root "Query") = some (.ref e.id)) (hent : D.entity? e.id = some e) (hty : e.type = T)
+    (href : Spec.eval c.schema D ⟨.query, "", [], [Q T q fs]⟩ [] = some (.obj [(q, .obj r)])) :
+    ∃ d calls, gateway c {} ⟨.query, "", [], [Q T q fs]⟩ none (specDownstream svcs D)
+        = .ok ⟨some [(q, .obj d)], [], calls⟩ ∧ d.Perm r := by
+  obtain ⟨d, hg, hp⟩ := flat_one_hop_calls h svcs SA SB D e r hq1 hq2 hqne hine hnne hsA hsB hSB hroot hent hty href
+  exact ⟨d, _, hg, hp⟩
 
 end PebblesVerif.Flat
